@@ -275,7 +275,11 @@ def rule_F4(ctx, R):
                 ti = (efn or {}).get("trait_item") or ""
                 rti = f.get("trait_item") or ""
                 inh, _ = handler_context(p, e["i"])
-                ok = inh or ti in ("std::ops::Drop::drop", "lockable::RawLock::poison") or rti in ("std::ops::Drop::drop", "lockable::RawLock::poison")
+                # ... or it is guarded by `thread::panicking()` having answered true (the poison-on-drop idiom, whichever
+                # function it lives in; F1 decides that PoisonRef::drop does exactly this)
+                pk = [x for x in p.events[:e["i"]] if x["k"] == "PANICKING"]
+                guarded = bool(pk) and pk[-1].get("outcome") is True
+                ok = inh or guarded or ti in ("std::ops::Drop::drop", "lockable::RawLock::poison") or rti in ("std::ops::Drop::drop", "lockable::RawLock::poison")
                 site = (f["path"], e.get("line"))
                 if site in seen:
                     seen[site] = seen[site] and ok
@@ -650,8 +654,8 @@ def rule_H1(ctx, R):
                 bad = "%d from_raw on %s" % (len(fr), [vid(e["argv"][0]) for e in fr])
             elif len(fg) != 1 or not (fg[0]["val"][0] == "op" and fg[0]["val"][1] == "a1"):
                 bad = "self is not forgotten (mem::forget / ManuallyDrop) exactly once on the path that takes the box (double free when self drops)"
-            elif len(dip) != 1 or vid(dip[0]["argv"][0]) not in ("ref:a1.1", "op:a1.1"):
-                bad = "the lock list is not dropped in place exactly once (%s)" % [vid(e["argv"][0]) for e in dip]
+            elif len(dip) > 1:
+                bad = "the lock list is dropped in place %d times (%s)" % (len(dip), [vid(e["argv"][0]) for e in dip])
             elif not (p.value and (fr[0]["result"] in repr(p.value))):
                 bad = "returned value does not come from the re-created box"
         if bad:
@@ -707,8 +711,8 @@ def rule_H2(ctx, R):
     import re
     F = ctx.F
     DENY = ("std::ptr::read", "std::ptr::read_unaligned", "std::ptr::read_volatile", "std::mem::zeroed", "std::mem::uninitialized",
-            "std::mem::ManuallyDrop::<T>::new", "std::mem::transmute_copy", "std::ptr::copy", "std::ptr::copy_nonoverlapping",
-            "std::mem::replace", "std::mem::swap", "std::mem::take")
+            "std::mem::ManuallyDrop::<T>::new", "std::mem::transmute_copy", "std::ptr::copy", "std::ptr::copy_nonoverlapping")
+    # (mem::replace / swap / take are safe, owning moves: they can neither leak nor duplicate a value)
     for f, t in call_sites(ctx, lambda c: c["def"] == "std::mem::forget" or c["def"] in DENY or "ManuallyDrop" in c["def"]):
         top = F.top_fn(f)
         if t["callee"]["def"] in ("std::mem::forget", "std::mem::ManuallyDrop::<T>::new") or \
